@@ -198,6 +198,32 @@ def run(out):
             out.sample({'input': t['src'], 'mode': t['mode'], 'kind': t['kind'], 'tokens': t['toks'][:6], 'pos': t['pos']})
 
 
+def _css_model_chunk(vecs, isv):
+    from emmet.css_abbreviation.tokenizer import tokenize
+    from emmet.scanner import ScannerException
+    diff = []
+    for v in vecs:
+        try:
+            got = (-1, [[type(t).__name__, t.start, t.end] for t in tokenize(v['s'], isv)])
+        except ScannerException as e:
+            got = (e.pos, None)
+        except Exception as e:
+            diff.append(('css tokenizer raised %s' % type(e).__name__, v['s']))
+            continue
+        exp = (v['err'], [list(t) for t in v['toks']] if v['err'] == -1 else None)
+        if got != exp:
+            diff.append(('css tokens (value mode)' if isv else 'css tokens (property mode)', v['s']))
+    return diff
+
+
+def _css_model_chunk_value(vecs):
+    return _css_model_chunk(vecs, True)
+
+
+def _css_model_chunk_property(vecs):
+    return _css_model_chunk(vecs, False)
+
+
 def _model_comparison(out, quick):
     """conformance of the specification's own tokenizer + parser (AbbrSyntax.tla) and convert() (AbbrConvert.tla) with the real code; differences are
     reported as diagnostics: the property is the tiling, not a particular token boundary"""
@@ -207,6 +233,11 @@ def _model_comparison(out, quick):
     insts = [(n, 'AbbrSyntaxMC', kw, _model_chunk) for n, kw in insts] + \
             [(n.replace('markup-model', 'convert-model'), 'AbbrConvertMC', dict(constants=dict(kw['constants'], RepeatLimit=1000000)), _convert_chunk)
              for n, kw in insts]
+    # the stylesheet tokenizer transcription (CssTokenizer.tla) in both modes
+    css_alpha = CSS_ALPHA - {"~", "`", "|", "t"}
+    for isv in (False, True):
+        insts.append(('css-model-%s' % ('value' if isv else 'property'), 'CssTokenizerMC',
+                      dict(constants={'Alphabet': css_alpha, 'MaxLen': 3 if quick else 4, 'IsValue': isv}), _css_model_chunk_value if isv else _css_model_chunk_property))
     for name, module, kw, chunk in insts:
         r = common.run_tlc(module, timeout=3000, heap='12g', **kw)
         if r.violated:
